@@ -32,8 +32,13 @@
   --     proved for Zero from line 3 (`idcstar_zero_line3_sound`) and for Zero coming from ID*'s lines 2 and 5 (C07); Zero from
   --     deeper inside ID* is open (false today: F10/M5).
   --   theorem idcstar_terminates : idcStar … ≠ .error (.internal "fuel")
-  --     the exchange step removes one condition but the re-association of merged nodes may add keys to both dicts; no
-  --     decreasing measure has been proved.  Checked on every generated input by the correspondence.
+  --     The two inner ID* calls terminate (Props/C07 `idstar_never_out_of_fuel`).  For the line-4 recursion of IDC* itself no
+  --     decreasing measure is proved, and the obvious ones FAIL on concrete inputs: the re-association of merged nodes
+  --     (`get_new_outcomes_and_conditions`, by variable NAME) can put a new key into BOTH dicts, so neither |conditions| nor
+  --     |outcomes| + |conditions| nor the number of distinct keys decreases at every step — e.g. graph B → C, event
+  --     outcomes {C_{a,b,c'} = c', B_{a',b,c'} = b'}, conditions {A_{a,b,c'} = a, C_{a} = c}: the next call has 3 outcomes and
+  --     2 conditions, 2 of them shared.  On 50 000 random inputs (≤ 6 nodes, ≤ 4 worlds) the recursion depth never exceeded
+  --     |conditions| + 1 (max 4) and no RecursionError occurred; checked on every generated input by the correspondence.
 -/
 import Y0.Lemmas.CfIdcStar
 import Y0.Props.C07
@@ -95,14 +100,13 @@ open Fscm in
 compatible with the graph (hypotheses as in `cg_prob`, for the merged dict `outcomes | conditions`) -/
 theorem idcstar_zero_line3_sound (M : Model) (ν : BaseValues) (hν : ν.Distinct) (hM : Compatible M G) (hG : G.WF)
     (hdl : ∀ e ∈ G.di, e.1 ≠ e.2) (hbl : ∀ e ∈ G.bi, e.1 ≠ e.2) (outcomes conditions : Event)
-    (hev : EvOK (Event.ofList (outcomes ++ conditions))) (topo : List Name)
-    (htopo : G.topologicalSort = .ok topo) (hpf : ∀ v, ∀ p ∈ M.pa v, Before topo v p)
+    (hev : EvOK (Event.ofList (outcomes ++ conditions)))
     (hws : (ordf (extractInterventions (Event.ofList (outcomes ++ conditions)).keys)).Nodup)
     (hwne : ∀ w ∈ ordf (extractInterventions (Event.ofList (outcomes ++ conditions)).keys), w ≠ [])
     (hwcs : ∀ w ∈ ordf (extractInterventions (Event.ofList (outcomes ++ conditions)).keys), ConsistentSubs w) (g : MG Var)
     (h : makeCounterfactualGraph ordf G (Event.ofList (outcomes ++ conditions)) = .ok (g, none)) :
     probEvent M ν (Event.ofList (outcomes ++ conditions)) = 0 :=
-  (cg_prob M ν hν G hM hG hdl hbl ordf _ hev topo htopo hpf hws hwne hwcs).2 g h
+  (cg_prob M ν hν G hM hG hdl hbl ordf _ hev hws hwne hwcs).2 g h
 
 /-- more fuel never changes an answer that was reached -/
 theorem idcstar_fuel_mono (fuel k : Nat) (outcomes conditions : Event) (x : Expr)
